@@ -31,6 +31,22 @@ def _dim_of(x):
 class EvalError(Exception):
     """construct outside the supported subset, or a domain error in concrete mode"""
 
+class UninitRead(EvalError):
+    """the value of a variable that was declared without initialiser (indeterminate) is used"""
+    pass
+
+class Undef:
+    """indeterminate value of a local declared without initialiser (Eigen fixed-size matrices/arrays and scalars are NOT zero-initialised by default)"""
+    __slots__ = ('where',)
+    def __init__(self, where):
+        self.where = where
+    def __repr__(self):
+        return 'Undef(%s)' % self.where
+
+def _chk_undef(a):
+    if isinstance(a, Undef):
+        raise UninitRead('read of the uninitialised variable %s' % a.where)
+
 def is_sym(x):
     return isinstance(x, z3.ExprRef)
 
@@ -49,6 +65,7 @@ def to_z3(x):
     if isinstance(x, float):
         f = Fraction(x)
         return z3.Q(f.numerator, f.denominator)
+    _chk_undef(x)
     raise EvalError('cannot convert %r to z3' % (x,))
 
 def z3real(x):
@@ -62,6 +79,8 @@ def _both_int(a, b):
     return isinstance(a, int) and isinstance(b, int) and not isinstance(a, bool) and not isinstance(b, bool)
 
 def _b2i(a):
+    if isinstance(a, Undef):
+        raise UninitRead('read of the uninitialised variable %s' % a.where)
     if isinstance(a, bool):
         return int(a)
     if is_sym(a) and z3.is_bool(a):
@@ -289,6 +308,7 @@ def lor(a, b):
     return truthy(a) or truthy(b)
 
 def truthy(a):
+    _chk_undef(a)
     if isinstance(a, bool):
         return a
     if is_sym(a):
